@@ -266,6 +266,14 @@ theorem data_is_latest (ops : List WOp) (id : Nat) :
     ((w.imgs id).uploaded = false ∧ (w.imgs id).buf.getLast? = w.latest id ∧ ((w.imgs id).buf = [] → w.term.data id = none)) :=
   run_data ops World.init init_data id
 
+open VaxisModel.Lemmas.KittyMixed in
+/-- The same in histories that mix kitty and sixel images. -/
+theorem data_is_latest_mixed (kitty : Nat → Bool) (ops : List WOp) (id : Nat) :
+    let w := World.init.runK kitty ops
+    ((w.imgs id).uploaded = true ∧ (w.imgs id).buf = [] ∧ w.term.data id = w.latest id) ∨
+    ((w.imgs id).uploaded = false ∧ (w.imgs id).buf.getLast? = w.latest id ∧ ((w.imgs id).buf = [] → w.term.data id = none)) :=
+  runK_data kitty ops World.init init_data id
+
 /-- Hence: right after a render that wrote a placement of an image, the terminal has that image's latest encoding
     (the one of the last successful `Resize` before the frame) — placed with fresh data, whatever happened before
     (a second `Resize`, refused encodes, several placements of the image).  What seeded change C20-m5 breaks. -/
